@@ -96,12 +96,28 @@ class BeartypeValidatorUnaryABC(BeartypeValidator, metaclass=ABCMeta):
         **kwargs
     ) -> str:
 
+        # True only if the passed object satisfies this validator *OR* "None" if
+        # this validator has been short-circuited by a prior sibling validator
+        # and testing this object against this validator raises an exception.
+        # Like a short-circuited leaf validator (see
+        # BeartypeValidator.get_diagnosis()), a short-circuited compound
+        # validator was *NOT* intended to be called against this object and
+        # may thus raise arbitrary exceptions, which are silently ignored.
+        is_obj_valid = None
+        if kwargs.get('is_shortcircuited', False):
+            try:
+                is_obj_valid = self.is_valid(obj)
+            except Exception:
+                pass
+        else:
+            is_obj_valid = self.is_valid(obj)
+
         # Line diagnosing this object against this negated parent validator.
         line_outer_prefix = format_diagnosis_line(
             validator_repr='(',
             indent_level_outer=indent_level_outer,
             indent_level_inner=indent_level_inner,
-            is_obj_valid=self.is_valid(obj),
+            is_obj_valid=is_obj_valid,
         )
 
         # Line diagnosing this object against this non-negated child validator
